@@ -28,6 +28,9 @@ def run(tier="quick", seed=0, replay=None):
         print(open(replay).read())
         return 1
     core.lean_stage(chk, "C11")
+    from harness import cover
+    _cv = cover.Cover(['ixai/utils/tracker/sliding_window.py'])
+    _cv.__enter__()
     quick = tier == "quick"
     reqs, impls = [], []
     try:
@@ -93,6 +96,8 @@ def run(tier="quick", seed=0, replay=None):
                 chk.tie_failure("correspondence:SlidingWindowTracker", f"{desc}: impl={steps} model={ms}")
     else:
         chk.tie_failure("driver", "model driver not built")
+    _cv.__exit__(None, None, None)
+    cover.gate(chk, _cv, only_functions=['SlidingWindowTracker'])
     chk.exhaustive = False
     chk.extra["explanation"] = ("Theorems about the ring-buffer model for every k >= 1 and stream; tied to sliding_window.py by running the real "
                                 "class after every update against the model and the closed forms.")
